@@ -118,17 +118,22 @@ def replay_r_history(args: tuple[list[dict[str, str]], tuple[str, str]]) -> dict
     return out
 
 
-def corpus_worker(args: tuple[dict[str, Any], tuple[str, str]]) -> dict[str, Any]:
+def corpus_worker(args: tuple[dict[str, Any], tuple[str, str], str]) -> dict[str, Any]:
     from harness import corpus as C
-    case, cfg = args
+    case, cfg, order = args
     W.preload()
     root = scratch("c02c-")
     try:
-        r = C.run_case(case, root, cfg[0], cfg[1])
+        if order in ("reload", "reload-deep"):
+            r = C.reload_case(case, root, cfg[0], cfg[1], deep=order == "reload-deep")
+        else:
+            r = C.run_case(case, root, cfg[0], cfg[1], order)
     except BaseException as e:  # harness problem with this case: skip it, never a verdict
         r = {"name": case["name"], "steps": 0, "violation": None, "traces": [], "skipped": "harness error %r" % (e,), "nontrivial": False}
     shutil.rmtree(root, ignore_errors=True)
     r["cfg"] = cfg
+    r["order"] = order
+    r["file"] = case.get("file", "")
     return r
 
 
@@ -632,7 +637,20 @@ def main(argv: list[str]) -> int:
     if tier == "quick":
         # a FIXED sample (the corpus contains a genuine finding): every fourth case
         ccases = ccases[::4]
-    cwork = [(c, W.CONFIGS[i % 4]) for i, c in enumerate(ccases)]
+    # every case is run 'back' (its own steps 1..n, then every edit undone again n-1..1: histories the repository's suite
+    # does not contain); thorough adds 'reverse' (n..1)
+    cwork = [(c, W.CONFIGS[i % 4], "back") for i, c in enumerate(ccases)]
+    if tier != "quick":
+        cwork += [(c, W.CONFIGS[(i + 1) % 4], "reverse") for i, c in enumerate(ccases)]
+    # corpus-wide reload: single-step cases of every check-*.test file (see corpus.reload_case); quick: a fixed 1/8
+    rcases = []
+    for fn in C.reload_files():
+        for c in C.parse_cases(os.path.join(REPO, "test-data", "unit", fn)):
+            c["file"] = fn
+            rcases.append(c)
+    if tier == "quick":
+        rcases = rcases[::8]
+    cwork += [(c, W.CONFIGS[i % 4], "reload" if tier == "quick" else "reload-deep") for i, c in enumerate(rcases)]
     cresults = []
     with ProcessPoolExecutor(16) as pex:
         for res in pex.map(corpus_worker, cwork, chunksize=2):
@@ -640,7 +658,14 @@ def main(argv: list[str]) -> int:
     n_runs += sum(r["steps"] for r in cresults)
     for r in cresults:
         if r["violation"]:
-            v.violation("corpus:%s" % r["name"], {"kind": "corpus", "case": r["name"], "cfg": r["cfg"]}, "%s (%s/%s): %s" % (r["name"], r["cfg"][0], r["cfg"][1], r["violation"]))
+            if r["order"].startswith("reload"):
+                key = "reload:%s::%s:%s" % (r["file"], r["name"], r.get("label", ""))
+            elif r["order"] == "back" and len(r.get("at", [])) <= C.steps_of(next(c for c, _, o in cwork if c["name"] == r["name"] and o == "back")):
+                key = "corpus:%s" % r["name"]
+            else:
+                key = "corpus-%s:%s" % (r["order"], r["name"])
+            v.violation(key, {"kind": "corpus", "case": r["name"], "file": r["file"], "order": r["order"], "cfg": r["cfg"]},
+                        "%s [%s] (%s/%s): %s" % (r["name"], r["order"], r["cfg"][0], r["cfg"][1], r["violation"]))
     # ---- 4. trace validation
     scen = [{"sqlite": cfg[0] == "sqlite", "runs": r["trace"]} for (h_, cfg), r in zip(work, results) if r["trace"]][:500]
     scen += [{"sqlite": cfg[0] == "sqlite", "runs": r["trace"], "mods": ["a", "b", "c", "d", "e", "p", "p.x"]} for (h_, cfg), r in zip(rwork, rresults) if r["trace"]][:300]
@@ -658,7 +683,8 @@ def main(argv: list[str]) -> int:
         "states": states, "transitions": transitions,
         "traces_validated_against_impl": tv["validated"],
         "evaluations": len(work) + len(rwork) + len(twork) + len(cwork) + len(gwork), "distinct_nontrivial": nontrivial, "runs_compared_with_cold": n_runs,
-        "corpus_cases_run": sum(1 for r in cresults if not r["skipped"]), "corpus_cases_skipped": sum(1 for r in cresults if r["skipped"]),
+        "corpus_cases_run": sum(1 for r in cresults if not r["skipped"] and not r["order"].startswith("reload")), "corpus_cases_skipped": sum(1 for r in cresults if r["skipped"]),
+        "corpus_reload_cases_run": sum(1 for r in cresults if not r["skipped"] and r["order"].startswith("reload")),
         "model_histories": n_emitted, "model_history_replays": len(work), "r_two_step": len(pairs), "r_multi_step": len(multi), "t_histories": len(twork), "g_cases": len(gwork), "validate_cases": len(vcases), "validate_model_drift": vdrift[:6], "validate_model_drift_count": len(vdrift), "g_model_drift_count": len(gdrift), "g_model_drift": gdrift[:5],
         "model_drift": [{"cfg": w[1], "drift": d} for w, d in drift[:10]], "model_drift_count": len(drift),
         "rule": "every history TLC emits for Gen_Incremental.cfg (<=3 runs, <=2 edits, <=1 touch over catalogue M) replayed in the store x format "
